@@ -383,7 +383,11 @@ impl Engine {
                 break;
             }
 
-            depth += 1;
+            let Some(next_depth) = depth.checked_add(1) else {
+                // nothing deeper to iterate to
+                break;
+            };
+            depth = next_depth;
 
             match score {
                 Score::BlackMateIn(_) | Score::WhiteMateIn(_) => break,
